@@ -49,6 +49,7 @@ func FitSpline(path []P, tanv1, tanv2 P, barriers []Segment) []ctrlp {
 	}
 
 	bz, ok := tryfit(bz, path, barriers)
+	verifFit(len(path), ok)
 	if ok {
 		return []ctrlp{bz}
 	}
@@ -57,6 +58,7 @@ func FitSpline(path []P, tanv1, tanv2 P, barriers []Segment) []ctrlp {
 	bz = bz.adjust(1)
 	// find the index of the point of maximum distance from the path, i.e. the point of maximum error of the curve fitting
 	k := bz.maxerr(path, t)
+	verifSplit(len(path), k)
 
 	// compute the direction of the curve at the split point
 	tansplit1 := norm(subp(path[k], path[k-1]))
